@@ -1,17 +1,12 @@
 #!/bin/bash
-# false-alarm measurement: behaviour-preserving refactorings (/verif/refactors/<name>/patch.diff) x all checks.
-# usage: tools/refmatrix.sh [name ...]   (default: all).  Full output per refactoring in /tmp/refout/<name>.txt
+# false-alarm measurement: behaviour-preserving refactorings (/verif/refactors/<name>/patch.diff) x all checks,
+# on scratch copies (6 in parallel). usage: tools/refmatrix.sh [name ...] (default all). Output /tmp/refout/<name>.txt
 cd /verif
-mkdir -p /tmp/refout /tmp/matrix-verif/spec
-cp spec/*.json /tmp/matrix-verif/spec/; cp known_findings.json /tmp/matrix-verif/
-names="$@"; [ -z "$names" ] && names=$(ls refactors)
+mkdir -p /tmp/refout
+names="$@"; [ -z "$names" ] && names=$(ls refactors | grep -v PROMPT)
+echo $names | tr ' ' '\n' | xargs -P 6 -I{} tools/runpatch.sh {} refactors/{}/patch.diff /tmp/refout
 for name in $names; do
-  p=/verif/refactors/$name/patch.diff
-  git -C /repo apply $p 2>/dev/null || { echo "$name: PATCH DOES NOT APPLY"; continue; }
-  res=$(bin/dhcpverif check all --verif /tmp/matrix-verif 2>&1)
-  git -C /repo checkout -- . ; git -C /repo clean -fdq
-  echo "$res" > /tmp/refout/$name.txt
-  props=$(echo "$res" | grep "^VIOLATION" | sed 's/.*property=\(C[0-9]*\).*/\1/' | sort -u | tr '\n' ' ')
+  props=$(grep "^VIOLATION" /tmp/refout/$name.txt | sed 's/.*property=\(C[0-9]*\).*/\1/' | sort -u | tr '\n' ' ')
+  grep -q "DOES NOT APPLY" /tmp/refout/$name.txt && props="PATCH DOES NOT APPLY"
   echo "$name: ${props:-clean}"
-  echo "$res" | grep -A2 "^VIOLATION" | grep -v "^VIOLATION\|^--" | paste - - | cut -c1-260 | sort -u | head -${REF_LINES:-0}
 done
